@@ -212,17 +212,19 @@ def c14_shapes(tier):
     return [(2, 1, 2, 0, 1, 1, 0), (2, 1, 2, 1, 3, 0, 0), (2, 1, 2, 0, 3, 1, 1), (3, 1, 1, 0, 5, 1, 0), (2, 2, 1, 0, 2, 1, 0), (3, 1, 1, 1, 7, 0, 1), (2, 2, 1, 1, 3, 0, 1)]
 
 def c15_shapes(tier):
-    # (family, op thread 1, op thread 2, preemption bound, entry thread, reading listener)
+    # (family, op thread 1, op thread 2, preemption bound, entry thread, reading listener, 1 + hash-order deviations)
     if tier == 'quick':
-        return [(1, 3, 1, 1, 0, 0), (1, 2, 0, 1, 0, 0), (0, 3, 1, 1, 0, 0), (2, 3, 2, 1, 0, 0), (3, 2, 4, 1, 0, 0), (4, 3, 1, 1, 0, 0),
-                (1, 3, 8, 1, 0, 0), (0, 2, 8, 1, 0, 0), (1, 1, 6, 1, 0, 1), (3, 5, 8, 1, 0, 0)]
+        out = [(fam, 3, 1, 1, 0, 0, 2) for fam in range(5)]
+        out += [(1, 2, 0, 1, 0, 0, 2), (2, 3, 2, 1, 0, 0, 2), (3, 2, 4, 1, 0, 0, 2), (1, 3, 8, 1, 0, 0, 1), (0, 2, 8, 1, 0, 0, 2), (1, 1, 6, 1, 0, 1, 1), (3, 5, 8, 1, 0, 0, 2),
+                (0, 3, 2, 1, 0, 0, 2), (3, 3, 2, 1, 0, 0, 2), (4, 3, 0, 1, 0, 0, 2)]
+        return out
     out = []
     for fam in range(5):
-        for a, b in [(3, 1), (2, 0), (3, 2), (4, 1), (5, 2), (1, 7), (3, 6), (0, 8), (2, 8), (3, 8), (4, 8)]:
+        for a, b in [(3, 1), (2, 0), (3, 2), (4, 1), (5, 2), (1, 7), (3, 6), (0, 8), (2, 8), (3, 8), (4, 8), (3, 0), (3, 4), (2, 1)]:
             if fam == 4 and (a in (2, 5, 7) or b in (2, 5, 7)):
                 continue
-            out.append((fam, a, b, 1, 0, 0))
-    out += [(1, 3, 1, 1, 1, 0), (0, 3, 1, 1, 1, 0), (1, 1, 6, 1, 0, 1), (1, 3, 4, 1, 0, 1), (1, 3, 1, 2, 0, 0)]
+            out.append((fam, a, b, 1, 0, 0, 2))
+    out += [(1, 3, 1, 1, 1, 0, 2), (0, 3, 1, 1, 1, 0, 2), (1, 1, 6, 1, 0, 1, 2), (1, 3, 4, 1, 0, 1, 2), (1, 3, 1, 2, 0, 0, 1), (3, 3, 1, 2, 0, 0, 1), (2, 3, 2, 1, 0, 0, 0), (3, 3, 1, 1, 0, 0, 0)]
     return out
 
 def c16_shapes(tier):
@@ -271,7 +273,7 @@ PROPS = {
     'C15': {
         'level': 'model_checking',
         'bounds': 'two threads, each one manager operation of the same family out of {load-all {A1}, load-all {A1,A2,B1}, load-for-resource r1 {A2}, append A2, clear, clear-resource r1, get_rules, get_rules_of_resource, build+exit an entry on r1} '
-                  '(quick: 10 pairs over the five families, thorough: 11 pairs per family, selected triples with an entry thread), starting from a manager holding {A1}; every interleaving at visible operations with at most 1 preemption (thorough: 2 for one pair); '
+                  '(quick: 10 pairs over the five families, thorough: 11 pairs per family, selected triples with an entry thread), starting from a manager holding {A1}; every interleaving at visible operations with at most 1 preemption (thorough: 2 for two pairs); at most 1 hash-container iteration of the racing operations deviating from insertion order (0 for two quick shapes, unbounded for two thorough ones); '
                   'circuit breaker additionally with a state-change listener whose callbacks call get_rules_of_resource / get_breakers_of_resource; afterwards every manager must answer get_rules and accept clear + append',
         'assumptions': ['deadlock = a state in which no thread can run, or a thread re-acquiring a lock it holds', 'sequentially consistent memory', 'a deadlock is confirmed natively by a stress replay that hangs (5 s timeout) under delay injection at the library sync points'],
         'scenarios': [
